@@ -100,7 +100,16 @@ def _prune_dead(st, live):
     leaves its temporaries behind on every path)."""
     if not st.V:
         return st
-    keep = tuple((k, v) for k, v in st.V if (k % PAYLOAD) in live)
+    need = set(live)
+    changed = True
+    while changed:
+        changed = False
+        for k, v in st.V:
+            # "local k is the discriminant of local v[1]": the fact about v[1] is read through k
+            if v and v[0] == 'disc' and isinstance(v[1], int) and (k % PAYLOAD) in need and (v[1] % PAYLOAD) not in need:
+                need.add(v[1] % PAYLOAD)
+                changed = True
+    keep = tuple((k, v) for k, v in st.V if (k % PAYLOAD) in need)
     return st if len(keep) == len(st.V) else st._replace(V=keep)
 
 
